@@ -15,8 +15,8 @@ C = dict(
         dict(name="hist2q", module="WriterReady", cfg="WriterReady_PlanHist2Q.cfg", workers=8, tiers=["quick"]),
         dict(name="hist", module="WriterReady", cfg="WriterReady_PlanHist.cfg", workers=8, tiers=["thorough"]),
         dict(name="hist2", module="WriterReady", cfg="WriterReady_PlanHist2.cfg", workers=8, tiers=["thorough"]),
-        dict(name="sim", module="WriterReady", cfg="WriterReady_PlanSim.cfg", simulate={"quick": 300, "thorough": 8000},
-             depth=40, cap={"quick": 600, "thorough": 60000}),
+        dict(name="sim", module="WriterReady", cfg="WriterReady_PlanSim.cfg", simulate={"quick": 200, "thorough": 8000},
+             depth=40, cap={"quick": 400, "thorough": 60000}),
     ],
     directed="plans/C08.jsonl",
     trace=("WriterReady_Trace", "WriterReady_Trace.cfg"),
